@@ -333,6 +333,11 @@ def correspondence(ctx):
         'harness/sim.py + harness/chunking.py: fake transport (FIFO, lossless), virtual clock frozen during a tick',
     ]
 
+    # cluster level: chunked entries under losses, reconnects, lagging followers, leader changes - the shared Raft run
+    # (scripted scenarios + random schedules, correspondence with the L1 model, "no exception escapes" records)
+    from props import raftcommon as R
+    R.account(ctx, R.raft_run(ctx), ('C11',))
+
 
 # ---- known findings (both fixed): their witnesses must pass now ---------------------------------
 
